@@ -63,6 +63,7 @@ def prepare(name, bindir=None, poll_secs=1, exe="verif-agent", config_extra=None
 def run_rig(script, name, *, timeout=300, bindir=None, strace=None, keep_output=False, env_extra=None):
     """Execute one script; returns (events, returncode, stdout+stderr tail)."""
     script = dict(script)
+    etc_group = script.pop("etc_group", None)
     d, exe = prepare(name, bindir, config_extra=script.pop("agent_config", None))
     script.setdefault("hosts", HOSTS)
     script.setdefault("proxy_port", 3080)
@@ -76,7 +77,26 @@ def run_rig(script, name, *, timeout=300, bindir=None, strace=None, keep_output=
     if strace:
         # system-call log of the whole process tree (file names only for the requested calls)
         launcher = "strace -f -qq -o %s -e trace=%s %s" % (os.path.join(d, "strace.log"), strace, exe)
-    cmd = NS + ["sh", "-c", NS_SETUP_PRIVATE + " && exec " + launcher]
+    setup = NS_SETUP_PRIVATE
+    if etc_group:
+        # a private /etc/group (bind mount inside the run's mount namespace): extra members for existing or new groups
+        lines, seen_g = [], set()
+        with open("/etc/group") as f:
+            for ln in f.read().splitlines():
+                fl = ln.split(":")
+                if len(fl) >= 4 and fl[0] in etc_group:
+                    seen_g.add(fl[0])
+                    fl[3] = ",".join([x for x in fl[3].split(",") if x] + list(etc_group[fl[0]]))
+                    ln = ":".join(fl)
+                lines.append(ln)
+        for k, (g, mem) in enumerate(sorted(etc_group.items())):
+            if g not in seen_g:
+                lines.append("%s:x:%d:%s" % (g, 61000 + k, ",".join(mem)))
+        gp = os.path.join(d, "etc_group")
+        with open(gp, "w") as f:
+            f.write("\n".join(lines) + "\n")
+        setup += " && mount --bind %s /etc/group" % gp
+    cmd = NS + ["sh", "-c", setup + " && exec " + launcher]
     try:
         p = subprocess.run(cmd, env=env, cwd=d, stdout=subprocess.PIPE, stderr=subprocess.STDOUT, timeout=timeout,
                            text=True, errors="replace")
